@@ -180,3 +180,35 @@ def pmap_unordered(func, items, workers, chunksize=1, guard=True, limit=None):
     ctx = mp.get_context("fork")
     with ctx.Pool(min(workers, len(items)), initializer=_init_worker) as pool:
         yield from pool.imap_unordered(func, items, chunksize=chunksize)
+
+
+def refill_check(res, key, case, fn, contents_a, contents_b, fresh_fn=None, rtol=1e-13, atol=0.0):
+    """History "same array objects, refilled in place" (identity-keyed memos, seeded change C03-D): call ``fn`` with
+    buffers holding ``contents_a``, overwrite the SAME buffers in place with ``contents_b``, call again; the second result
+    must equal what ``fresh_fn`` (default ``fn``) returns for fresh copies of ``contents_b``.  ``res`` is a WorkerResult or
+    a Ctx; results are compared as float arrays (tuples / lists element-wise)."""
+    import numpy as np
+
+    def flat(x):
+        if isinstance(x, (tuple, list)):
+            return [flat(v) for v in x]
+        if hasattr(x, "points") and hasattr(x, "weights"):
+            return [np.asarray(x.points, dtype=float), np.asarray(x.weights, dtype=float)]
+        return np.asarray(x, dtype=float)
+
+    def same(a, b):
+        if isinstance(a, list):
+            return isinstance(b, list) and len(a) == len(b) and all(same(x, y) for x, y in zip(a, b))
+        return a.shape == b.shape and np.allclose(a, b, rtol=rtol, atol=atol, equal_nan=True)
+
+    res.count()
+    bufs = [np.array(a, copy=True) for a in contents_a]
+    fn(*bufs)
+    for buf, b in zip(bufs, contents_b):
+        buf[...] = b
+    second = flat(fn(*bufs))
+    want = flat((fresh_fn or fn)(*[np.array(b, copy=True) for b in contents_b]))
+    res.nontrivial()
+    if not same(second, want):
+        res.violation(f"{key}:stale-after-in-place-refill", f"{key}: a second call with the same array objects refilled in place "
+                      f"does not return what a call with fresh arrays of the same contents returns", case)
